@@ -239,6 +239,11 @@ harness! {
     #[kani::unwind(6)]
     fn chan_step_cap3() { chan_step(3); }
 }
+harness! {
+    #[kani::stub(crossbeam::hooks::block, block_hook)]
+    #[kani::unwind(7)]
+    fn chan_step_cap4() { chan_step(4); }
+}
 
 // -----------------------------------------------------------------------------------------
 // burst without a consumer
